@@ -190,6 +190,8 @@ def run(ctx):
         evaluate(ctx, [gen_case(ctx.rng) for _ in range(k)])
         done += k
     _shrinker()[2](ctx)
+    if ctx.disagreements or any(not f.get("finding_class") for f in ctx.failures):
+        return      # the counts below are taken from the implementation's behaviour: on a tree that violates the property they measure the defect, not the generator
     if ctx.evaluations > 20 and ctx.distinct_nontrivial < ctx.evaluations * 0.3:
         raise common.InfraError("degenerate distribution: %d non-trivial of %d" % (ctx.distinct_nontrivial, ctx.evaluations))
     crashed = ctx.histogram.get("cmd=declare/Crashed", 0) + ctx.histogram.get("cmd=undeclare/Crashed", 0)
